@@ -130,6 +130,9 @@ impl Property for C10 {
         }
         if exp.matches("#[serde(rename = \"").count() != base.matches("#[serde(rename = \"").count() {
             st.count("attribute_rename_elided");
+            if !o.prefix.is_empty() {
+                st.count("attribute_rename_elided_with_non_empty_prefix");
+            }
         }
 
         // presets: equal up to rename lines; presets are what their fields say; derive() only sets derive
@@ -182,6 +185,6 @@ impl Property for C10 {
         json!({"case": describe_case(&prepare(tapes, &Domain::general(), &surf)), "options": decode_options(&mut tc).json()})
     }
     fn health(&self, _tier: Tier) -> Vec<(&'static str, u64)> {
-        vec![("nontrivial", 5000), ("derive.empty", 1000), ("prefix.empty", 1000), ("attribute_rename_elided", 300), ("child_renames_checked", 5000)]
+        vec![("nontrivial", 5000), ("derive.empty", 1000), ("prefix.empty", 1000), ("attribute_rename_elided", 300), ("attribute_rename_elided_with_non_empty_prefix", 30), ("child_renames_checked", 5000)]
     }
 }
